@@ -966,6 +966,9 @@ class _Rewriter(ast.NodeTransformer):
         if isinstance(e, ast.Call) and (dotted(e.func) or '') in ('functools.reduce', 'ft.reduce', 'reduce') and len(e.args) == 3 and not e.keywords \
                 and not any(isinstance(a, ast.Starred) for a in e.args):
             F = e.args[0]
+            # the loop evaluates INIT before the iterable (reduce: iterable first): harmless when one of the two is pure
+            if not (_pure(e.args[1]) or _pure(e.args[2])):
+                return None
             if _ref(F):
                 return e
             if isinstance(F, ast.Lambda) and len(F.args.args) == 2 and not F.args.posonlyargs and not F.args.kwonlyargs and not F.args.vararg \
